@@ -339,11 +339,27 @@ def _readline_timeout(p, timeout):
 # --------------------------------------------------------------------------------------------
 
 def load_known():
-    p = os.path.join(VERIF, "known_findings.json")
-    if not os.path.exists(p):
-        return {"findings": [], "fixed": []}
-    with open(p) as f:
-        return json.load(f)
+    """known_findings.json plus per-property fragments known/<id>.json (same format)"""
+    import glob
+    out = {"findings": [], "fixed": []}
+    paths = [os.path.join(VERIF, "known_findings.json")] + sorted(glob.glob(os.path.join(VERIF, "known", "*.json")))
+    for p in paths:
+        if os.path.exists(p):
+            with open(p) as f:
+                d = json.load(f)
+            out["findings"] += d.get("findings", [])
+            out["fixed"] += d.get("fixed", [])
+    return out
+
+
+def generate(module, cfg, workers=8, timeout=1800, key=None, **kw):
+    """Run TLC as a vector generator: returns (TlcResult, list of distinct printed JSON vectors)."""
+    res = tlc_ok(run_tlc(module, cfg, workers=workers, timeout=timeout, **kw), module + "/" + cfg)
+    seen = {}
+    for v in res.printed():
+        k = json.dumps(v, sort_keys=True) if key is None else key(v)
+        seen.setdefault(k, v)
+    return res, [seen[k] for k in sorted(seen)]
 
 
 class Report:
